@@ -33,6 +33,7 @@ int vk_nwait;
 void (*vk_block_hook)(int (*ready)(void *), void *ctx, long long deadline);
 void (*vk_yield_hook)(void);
 int vk_yield_after_kick;
+int mt_fork_fail_at;	/* scenario option of the baton scheduler (mt.c); unused in free-running programs */
 const char *mt_schedule;
 int mt_active;
 
